@@ -96,17 +96,17 @@ def run(ctx):
     from .c06 import entries_independent
 
     entries_independent(ctx.sub("DEP-C06"), "R3")
+    # "... and for no threshold above the number of authorized signers": no entry counts that is
+    # not a valid signature by an authorized key (C01's rule set)
+    from . import c01
+
+    c01.run(ctx.sub("DEP-C01"))
     # "... and it verifies with that key authorized, for every threshold up to the number of
     # authorized signers": the verifier turns no valid call away and drops no good entry
     # (C02's rule set, re-evaluated here)
     from . import c02
 
     c02.run(ctx.sub("DEP-C02"), deps=False)
-    # "... and for no threshold above the number of authorized signers": no entry counts that is
-    # not a valid signature by an authorized key (C01's rule set)
-    from . import c01
-
-    c01.run(ctx.sub("DEP-C01"))
 
 
 STEP_CALLEES = ("ext:json.dumps", "method:sign", "method:public_key", "method:public_bytes", "method:private_bytes", "method:encode", "method:decode", "ext:binascii.hexlify", "method:hex", "method:to_hex", "method:to_bytes")
